@@ -28,6 +28,8 @@ func init() {
 	streams["totality"] = func(dir string, rng *rand.Rand, n int, tier string) {
 		s := NewStream(dir, "totality")
 		defer s.Close(dir, "totality")
+		// end-of-block processing is not halted by what ordinary transactions can leave behind (the same scenario as C07's)
+		monModuleAccountRecipient(s, "mon.c17.endblock-not-halted")
 		c, err := NewChain(memDB(), tmpHome(), nil, 0, nil)
 		if err != nil {
 			panic(err)
